@@ -365,8 +365,11 @@ def plan_pool(S, prop, tier, avoid):
             if chance(h, 0.55):
                 pc["fault"] = {"kind": wpick(h, [("die", 3), ("raise", 2)]), "at": h.randrange(pn)}
             pre.append(pc)
+    # how the caller hands the items over: a container with a length, or a one-shot iterable without one
+    itemform = wpick(S.py("itemform"), [("list", 5), ("tuple", 1), ("gen", 2), ("iter", 1), ("map", 1)])
     return {"cfg": {"nproc": nproc, "chunksize": chunksize, "kw": kw, "work": work, "pipeline": pipeline,
-                    "clock": draw_clock(S.py("clock")), "tiebreak": tiebreak, "lat_regime": regime, "pre": pre},
+                    "clock": draw_clock(S.py("clock")), "tiebreak": tiebreak, "lat_regime": regime, "pre": pre,
+                    "itemform": itemform},
             "ops": ops}
 
 
@@ -786,6 +789,16 @@ def gated(item):
         finally:
             os.close(fd)
     if fault == "die":
+        try:
+            with open(os.path.join(calldir, "caller")) as fh:
+                caller = int(fh.read())
+        except (OSError, ValueError):
+            caller = None
+        if caller == os.getpid():
+            # pmap runs this task in the CALLING process (a serial path is a legitimate way to honour nproc=1):
+            # there is no worker process to lose, the fault degrades to a task that raises
+            _emit(calldir, b"d", i)
+            raise InjectedTaskError("injected failure of item %d (no worker process to kill)" % i)
         os._exit(13)                  # the worker process dies in the middle of its task
     if fault == "raise":
         _emit(calldir, b"d", i)
@@ -805,6 +818,7 @@ def _controller(sigma, calldir, report, watchdog, stop_after=None):
     started = set()
     done = set()
     start_order = []
+    over = []
     status = "ok"
     ev = os.open(os.path.join(calldir, "ev"), os.O_RDWR)
     keep = []
@@ -822,6 +836,9 @@ def _controller(sigma, calldir, report, watchdog, stop_after=None):
                 while len(data) < _REC.size:
                     data += os.read(ev, _REC.size - len(data))
                 kind, i = _REC.unpack(data)
+                if kind == b"q":
+                    over.append(True)         # the pmap call itself is over: nothing more can arrive
+                    return False
                 if kind == b"s":
                     started.add(i)
                     start_order.append(i)
@@ -830,7 +847,7 @@ def _controller(sigma, calldir, report, watchdog, stop_after=None):
             return True
         for i in sigma:
             if not pump(lambda: i in started):
-                status = "inconclusive:start(%d) never arrived" % i
+                status = "inconclusive:start(%d) never arrived%s" % (i, " (the call was over)" if over else "")
                 break
             fd = os.open(os.path.join(calldir, "g%d" % i), os.O_RDWR | os.O_NONBLOCK)
             os.write(fd, b"x")
@@ -959,7 +976,19 @@ def _eq(a, b):
     return type(a) == type(b) and a == b
 
 
-def _run_call(run, root, callno, items, sigma, nproc, chunksize, kw, clock, stop_after=None):
+def _as_form(items, form):
+    if form == "tuple":
+        return tuple(items)
+    if form == "gen":
+        return (x for x in items)
+    if form == "iter":
+        return iter(items)
+    if form == "map":
+        return map(tuple, items)
+    return items
+
+
+def _run_call(run, root, callno, items, sigma, nproc, chunksize, kw, clock, stop_after=None, form="list"):
     """One pmap call on real worker processes under the enforced completion order sigma.
     Returns (status, got, err)."""
     import esutil.pbar as pb
@@ -968,6 +997,8 @@ def _run_call(run, root, callno, items, sigma, nproc, chunksize, kw, clock, stop
     os.mkfifo(os.path.join(calldir, "ev"))
     for it in items:
         os.mkfifo(os.path.join(calldir, "g%d" % it[0]))
+    with open(os.path.join(calldir, "caller"), "w") as fh:
+        fh.write("%d" % os.getpid())
     items = [(it[0], it[1], calldir, it[3], it[4]) for it in items]
     ctx = multiprocessing.get_context("fork")
     rep_r, rep_w = ctx.Pipe(duplex=False)
@@ -985,13 +1016,16 @@ def _run_call(run, root, callno, items, sigma, nproc, chunksize, kw, clock, stop
     err = None
     got = None
     status = "inconclusive:no report"
+    evfd = os.open(os.path.join(calldir, "ev"), os.O_RDWR)      # the FIFO has a reader from now on: no report is lost
     try:
         with _ClockInstalled(clock, False):
             try:
-                got = pb.pmap(gated, items, chunksize=chunksize, nproc=nproc, **kw)
+                got = pb.pmap(gated, _as_form(items, form), chunksize=chunksize, nproc=nproc, **kw)
             except Exception as e:
                 err = e
+        _emit(calldir, b"q", 0)
     finally:
+        os.close(evfd)
         try:
             if rep_r.poll(watchdog * 2 + 10):
                 status, _start_order, _done = rep_r.recv()
@@ -1095,7 +1129,10 @@ def execute_pool(script, run, env):
     after_fault = [pc["fault"]["kind"] for pc in pre if pc.get("fault") and pc["fault"]["at"] < len(pc["lat"])]
     if pre:
         run.fault("earlier_pmap_calls_in_the_same_process", len(pre))
-    status, got, err = _run_call(run, root, len(pre), items, sigma, nproc, chunksize, kw, clock)
+    form = cfg.get("itemform", "list")
+    if form != "list":
+        run.fault("items_as_" + ("one_shot_iterable" if form != "tuple" else "tuple"))
+    status, got, err = _run_call(run, root, len(pre), items, sigma, nproc, chunksize, kw, clock, form=form)
     inversions = sum(1 for a in range(len(sigma)) for b in range(a + 1, len(sigma)) if sigma[a] > sigma[b])
     feats = {"total": "given" if "total" in cfg["kw"] else "none", "simple": bool(kw.get("simple")),
              "out_of_order": inversions > 0}
@@ -1103,6 +1140,15 @@ def execute_pool(script, run, env):
         feats["after"] = after_fault[-1]
         run.fault("pmap_call_after_a_failed_one")
     run.virtual_s += makespan + clock.covered
+    if status != "ok" and err is None and judge:
+        # the completion order could not be enforced (tasks never started, or not when the pool model says), but
+        # pmap RETURNED: what it returned is list(map(fn, items)) or it is not, whatever the schedule was
+        run.checks += 1
+        if not isinstance(got, list) or len(got) != len(expected) or not all(_eq(a, b) for a, b in zip(got, expected)):
+            run.fail("prog.pmap.order", dict(feats, out_of_order=False, schedule="not enforced"),
+                     "pmap(fn, %d items given as %s, chunksize=%d, nproc=%d) returned %s, expected %s (completion order not enforced: %s)"
+                     % (n, form, chunksize, nproc, repr(got)[:300], repr(expected)[:300], status))
+            return
     if status != "ok" and not (err is not None and after_fault):
         run.inconclusive += 1
         run.event(0, "pmap", "n=%d nproc=%d cs=%d" % (n, nproc, chunksize), "inconclusive")
@@ -1188,7 +1234,7 @@ def simplify(script):
                 c["cfg"] = dict(cfg, pre=pre[:k] + [pc] + pre[k + 1:])
                 yield c
         for key, val in (("nproc", 2), ("nproc", 1), ("chunksize", 1), ("kw", {}), ("pipeline", None),
-                         ("tiebreak", "index")):
+                         ("tiebreak", "index"), ("itemform", "list")):
             if cfg.get(key) != val:
                 c = dict(script)
                 c["cfg"] = dict(cfg, **{key: val})
